@@ -31,7 +31,7 @@ type dcCfg struct {
 	bufRows  int // 0 = default buffer
 	noJitter bool
 	interior bool
-	exp      int // the whole problem scaled by 2^exp (solid, spacing): the answer must scale with it
+	exp      int  // the whole problem scaled by 2^exp (solid, spacing): the answer must scale with it
 	shortcut bool // through the package-level shortcuts DualContour / DualContourInterior(solid, delta, repair=false, clip=true)
 }
 
@@ -191,6 +191,23 @@ func init() {
 			case "all":
 				for bits := uint64(0); bits < 1<<uint(nx*ny*nz); bits++ {
 					emit(newLatticeSolid3(nx, ny, nz, bits), parseCfgs(f[2]))
+				}
+			case "wedge":
+				// knife edges: the least-squares vertex of a cell on the ridge lies far outside the cell unless
+				// it is clipped (narrow wedges along x, y and a diagonal, with the ridge inside the lattice)
+				for i := 0; i < atoi(f[2]); i++ {
+					l := newLatticeSolid3(nx, ny, nz, 0)
+					slope := []float64{0.18, 0.36, 0.1}[i%3]
+					cy, cz := 0.5*float64(ny+1)+0.13*float64(i%4), 0.5*float64(nz+1)+0.21*float64(i%3)
+					axis := i % 2
+					l.fn = func(c model3d.Coord3D) bool {
+						a, b, d := c.X-1.3, c.Y-cy, c.Z-cz
+						if axis == 1 {
+							a, b = c.Y-1.3, c.X-0.5*float64(nx+1)-0.17
+						}
+						return a > 0 && math.Abs(b) <= slope*a && math.Abs(d) <= 0.9*float64(nz)/2-0.2
+					}
+					emit(l, parseCfgs(f[3]))
 				}
 			case "rand":
 				for i := 0; i < atoi(f[2]); i++ {
